@@ -35,6 +35,8 @@ type hRec struct {
 	n    int
 	subs event.Subscription
 	comp *Mask
+	// restricted: the listener receives only the part of the stream selected by (subs, comp)
+	restricted bool
 }
 
 func (r *hRec) Subscriptions() event.Subscription { return r.subs }
@@ -131,14 +133,32 @@ func (x *hW) checkEvents(r *hRec, before *hSnap, wasReset bool) {
 				break
 			}
 		}
+		added, rem := aset&^bset, bset&^aset
+		brel, arel := hRelOf(bset), hRelOf(aset)
+		if r.restricted {
+			// documented selection rule applied to the full event the change produces
+			pb := x.predictBits(created, removed, added, rem, brel, arel, btgt, atgt)
+			am, rm := x.maskOf(added), x.maskOf(rem)
+			var oldRel, newRel *ID
+			if brel >= 0 {
+				oldRel = &x.id[brel]
+			}
+			if arel >= 0 {
+				newRel = &x.id[arel]
+			}
+			accept := HSubscribesSpec(uint8(r.subs)&uint8(pb), &am, &rm, r.comp, oldRel, newRel)
+			vAssert((idx >= 0) == accept, "a restricted listener receives exactly the events selected by the documented rule")
+			if idx < 0 {
+				want--
+				continue
+			}
+		}
 		vAssert(idx >= 0, "every changed entity gets an event")
 		if idx < 0 {
 			continue
 		}
 		used[idx] = true
 		ev := &r.ev[idx]
-		added, rem := aset&^bset, bset&^aset
-		brel, arel := hRelOf(bset), hRelOf(aset)
 		var bits event.Subscription
 		if created {
 			bits |= event.EntityCreated
@@ -189,6 +209,31 @@ func (x *hW) checkEvents(r *hRec, before *hSnap, wasReset bool) {
 		}
 	}
 	vAssert(r.n == want, "exactly one event per changed entity, none otherwise")
+}
+
+// predictBits: the type bits of the full event for a change.
+func (x *hW) predictBits(created, removed bool, added, rem uint8, brel, arel int, btgt, atgt Entity) event.Subscription {
+	var bits event.Subscription
+	if created {
+		bits |= event.EntityCreated
+	}
+	if removed {
+		bits |= event.EntityRemoved
+	}
+	if added != 0 {
+		bits |= event.ComponentAdded
+	}
+	if rem != 0 {
+		bits |= event.ComponentRemoved
+	}
+	relChanged := brel != arel
+	if relChanged {
+		bits |= event.RelationChanged
+	}
+	if relChanged || btgt != atgt || (created && arel >= 0) || (removed && brel >= 0) {
+		bits |= event.TargetChanged
+	}
+	return bits
 }
 
 const hNEvFamilies = 4
